@@ -7,7 +7,7 @@ import petl as etl
 from petl.comparison import Comparable
 from hypothesis import strategies as st
 
-from pv import gen, codec
+from pv import gen, codec, catgen
 from pv.core import Sub, Fail, exc_fail
 from pv.order import ref_cmp, rank_class
 from pv.ref import base as R
@@ -162,6 +162,7 @@ def consumer_case(draw, tier):
     else:
         c["key"] = draw(st.sampled_from([None, "a", tuple(hdr)]))
         c["reverse"] = draw(st.booleans())
+        c["form"] = draw(st.sampled_from(["lists", "lists"] + catgen.FORMS))
     return c
 
 
@@ -214,7 +215,7 @@ def check_consumer(case, ctx):
         idx = list(range(len(hdr))) if key is None else R.resolve(hdr, key)
         ctx.nontrivial(len(tbl) > 2 and _nontrivial(cells))
         try:
-            got = [tuple(r) for r in etl.sort(tbl, key, reverse=reverse)]
+            got = [tuple(r) for r in etl.sort(catgen.shape(codec.snapshot(tbl), case.get("form", "lists")), key, reverse=reverse)]
         except Exception as ex:
             return exc_fail("sort", ex)
         keys = [R.keyof(r, idx) for r in got[1:]]
